@@ -449,3 +449,74 @@ class_attribute_roundtrip = Contract(
 )
 class_attribute_roundtrip.opaque = {"get_docstring": {"ret": "none"}, "to_code": {"ret": "str"}}
 CONTRACTS.append(class_attribute_roundtrip)
+
+# ------------------------------------------------------------------------------------------- law: replace at a dotted location (C15-L / C11-L)
+_REPL_ANN = ("node", "ast.AnnAssign", {"target": ("node", "ast.Name", {"id": ("lit", "x"), "ctx": ("node", "ast.Store", {})}), "annotation": None,
+                                       "value": ("node", "ast.Constant", {"value": "int", "kind": None}), "simple": 1})
+_REPL_CLS = _u_cls("A", [_u_ann("fresh")])
+_RAL_MODULES = {
+    # name -> (module, search, replacement, path of the addressed node | None, paths of nodes that must stay structurally the same)
+    "class-attr": (_u_mod([_u_cls("A", [_u_ann("x"), _u_ann("y")]), _u_cls("B", [_u_ann("x")]), _u_assign("T")]), ["A", "x"], _REPL_ANN,
+                   "result[0].body[0].body[0]", ["result[0].body[0].body[1]", "result[0].body[1]", "result[0].body[2]"], ["module.body[0].body[1]", "module.body[1]", "module.body[2]"]),
+    "class": (_u_mod([_u_doc("A"), _u_cls("E", [_u_doc("A")]), _u_cls("A", [_u_ann("x")]), _u_fn("g", ["q"])]), ["A"], _REPL_CLS,
+              "result[0].body[2]", ["result[0].body[0]", "result[0].body[1]", "result[0].body[3]"], ["module.body[0]", "module.body[1]", "module.body[3]"]),
+    "absent": (_u_mod([_u_cls("A", [_u_ann("x")]), _u_assign("T")]), ["A", "nope"], _REPL_ANN, None, ["result[0].body[0]", "result[0].body[1]"], ["module.body[0]", "module.body[1]"]),
+}
+
+
+def _ral_clauses():
+    out = []
+    for k, (_, _, _, target, keep_now, keep_old) in _RAL_MODULES.items():
+        if target:
+            out.append(Clause("RAL-replaced[%s]" % k, "result[1] == True and %s is replacement" % target, when=[k],
+                              note="C15: the addressed node - and it alone - is the replacement"))
+        else:
+            out.append(Clause("RAL-absent[%s]" % k, "result[1] == False", when=[k], note="C15: an absent location replaces nothing and says so"))
+        for i, (now, old) in enumerate(zip(keep_now, keep_old)):
+            out.append(Clause("RAL-others[%s]-%d" % (k, i), "%s is %s" % (now, old.replace("module.", "old_module.")), when=[k],
+                              note="C11: every other statement is the very same node as before (same position, same object)"))
+    out.append(Clause("RAL-same-module", "result[0] is module", note="the module node itself is kept"))
+    return out
+
+
+replace_at_location = Contract(
+    "vf.contracts.laws:replace_at_location",
+    properties=["C15", "C11", "C14", "C09"],
+    note="C15 / C11, deductively: annotate_ancestry then RewriteAtQuery(...).visit (both real, inlined, with NodeTransformer's traversal modelled as in ast.py) on "
+         "three module shapes: an attribute whose simple name also occurs in another class, a class that is preceded by string constants equal to its name "
+         "(a docstring-like statement and a sibling's docstring) and followed by a def, and an absent path",
+    cases=[Case(k, {"module": m, "search": ("list", [("lit", x) for x in srch]), "replacement": repl}) for k, (m, srch, repl, _, _, _) in _RAL_MODULES.items()],
+    ensures=_ral_clauses(),
+    canaries=["result[1] == True"],
+)
+CONTRACTS.append(replace_at_location)
+
+# ------------------------------------------------------------------------------------------- law: one property synchronised (C14-L)
+sync_one_property = Contract(
+    "vf.contracts.laws:sync_one_property",
+    properties=["C14"],
+    note="C14, deductively: sync_property (with the real find_in_ast, annotate_ancestry and RewriteAtQuery inlined) copies Cfg.x of an input module over Out.y of an "
+         "output module that also holds another attribute, another class with an attribute called y, and a constant",
+    cases=[Case("attr-to-attr", {"input_module": _u_mod([_u_cls("Cfg", [_u_ann("w"), _u_ann("x")])]),
+                                 "output_module": _u_mod([_u_cls("Other", [_u_ann("y")]), _u_cls("Out", [_u_ann("z"), _u_ann("y")]), _u_assign("T")]), "output_param": ("lit", "Out.y")}),
+           Case("attr-to-arg", {"input_module": _u_mod([_u_cls("Cfg", [_u_ann("w"), _u_ann("x")])]),
+                                "output_module": _u_mod([_u_cls("Other", [_u_ann("y")]), _u_fn("Out", ["z", "y"], ["k"]), _u_assign("T")]), "output_param": ("lit", "Out.y")}),
+           Case("attr-to-kwonly", {"input_module": _u_mod([_u_cls("Cfg", [_u_ann("w"), _u_ann("x")])]),
+                                   "output_module": _u_mod([_u_fn("Out", ["z", "y"], ["k", "m"]), _u_assign("T")]), "output_param": ("lit", "Out.m")})],
+    ensures=[
+        Clause("SOP-arg", "[a.arg for a in result.body[1].args.args] == ['z', 'x'] and [a.arg for a in result.body[1].args.kwonlyargs] == ['k'] "
+                          "and result.body[0] is old_output_module.body[0] and result.body[2] is old_output_module.body[2] and result.body[1].args.args[0] is old_output_module.body[1].args.args[0]",
+               when=["attr-to-arg"], note="C14: an argument target: exactly the addressed argument is replaced (by the input's name), its neighbours and the rest of the module stay"),
+        Clause("SOP-kwonly", "[a.arg for a in result.body[0].args.kwonlyargs] == ['k', 'x'] and [a.arg for a in result.body[0].args.args] == ['z', 'y'] "
+                             "and result.body[0].args.kwonlyargs[0] is old_output_module.body[0].args.kwonlyargs[0]", when=["attr-to-kwonly"],
+               note="C14: a keyword-only argument target: that argument - not the positional one at the same index - is replaced"),
+        Clause("SOP-addressed", "result.body[1].body[1] is input_module.body[0].body[1]", when=["attr-to-attr"], note="C14: the addressed output node is replaced by the addressed input node"),
+        Clause("SOP-others", "result.body[0] is old_output_module.body[0] and result.body[1].body[0] is old_output_module.body[1].body[0] and result.body[2] is old_output_module.body[2] "
+                             "and len(result.body) == 3 and len(result.body[1].body) == 2",
+               when=["attr-to-attr"], note="C14: every other node of the output - the same-named attribute of the other class included - is the very same node, in place"),
+        Clause("SOP-input-frame", "input_module.body[0].body[0] is old_input_module.body[0].body[0] and len(input_module.body[0].body) == 2", note="the input module keeps its statements"),
+        Clause("SOP-same-module", "result is output_module"),
+    ],
+    canaries=["result is input_module"],
+)
+CONTRACTS.append(sync_one_property)
